@@ -350,6 +350,9 @@ func (e *Exec) byContract(st *State, fr *Frame, key string, ct *Contract, names 
 	}
 	post.bindResult(res)
 	for _, en := range ct.Ensures {
+		if en.Try {
+			continue // not established: never assumed by callers
+		}
 		// postconditions that mention callee-local variables are internal to
 		// the callee (checked there, not visible to callers)
 		func() {
@@ -373,6 +376,30 @@ func (e *Exec) byContract(st *State, fr *Frame, key string, ct *Contract, names 
 		cb.env.old = pre
 		for _, ci := range cb.ct.CbInv {
 			st.assume(cb.env.evalBool(ci.E))
+		}
+	}
+	// intermediate assertions of the unit: `site after-call(<callee>#n) requires[label] expr`
+	// are proved here and then assumed (proof cut)
+	if e.contract != nil && fr.Fn == e.fn && len(e.contract.Sites) > 0 {
+		ord := e.callOrdinal(fr.Fn, instr, key)
+		for _, sc := range e.contract.Sites {
+			if !strings.HasPrefix(sc.Callee, "after-call(") {
+				continue
+			}
+			want := strings.TrimSuffix(strings.TrimPrefix(sc.Callee, "after-call("), ")")
+			i := strings.LastIndex(want, "#")
+			if i < 0 || want[i+1:] != fmt.Sprint(ord) || !strings.HasSuffix(key, "."+want[:i]) {
+				continue
+			}
+			// the call's result is not yet bound to its SSA value; expose it as `callresult`
+			senv := e.frameEnv(st, fr)
+			if res != nil {
+				senv.vars["callresult"] = res
+			}
+			g := senv.evalBool(sc.Clause.E)
+			name := fmt.Sprintf("assert-after(%s)[%s]", want, joinLabels(sc.Clause.Labels))
+			e.emit(st, name, "assert", sc.Clause.Labels, g, fmt.Sprintf("%s:%d", sc.Clause.File, sc.Clause.Line))
+			st.assume(g)
 		}
 	}
 	return res
